@@ -47,6 +47,8 @@ def tagged_cases(draw) -> t.Any:
     variants = []
     for i in range(nvar):
         fields: t.List[t.Dict[str, t.Any]] = [{'name': tag, 'type': ('lit', (vals[i],)), 'default': ['value', vals[i]]}]
+        if draw(st.integers(0, 5)) == 5:
+            fields[0]['exclude'] = True     # the tag is not part of the variant's own output: for the internal layout the union has to write it
         for n in body_names:
             if draw(st.integers(0, 3)) == 3:
                 continue
